@@ -1010,6 +1010,88 @@ theorem ivSumIn_all (m : Mod → Rat) (ivs : Option (List Interval)) (n : Nat)
       simp only [List.filter_cons, c, and_self, decide_true, if_true, List.map_cons, List.sum_cons,
         ih (fun x hx => hw x (by simp [hx]))]
 
+/-! ### shift of intervals (after fix 918a950) -/
+
+
+theorem add_emod_range (i e n : Int) (hi0 : 0 ≤ i) (hi : i < n) (he0 : 0 ≤ e) (he : e < n) :
+    (i + e) % n = if i + e < n then i + e else i + e - n := by
+  split
+  · exact Int.emod_eq_of_lt (by omega) (by omega)
+  · rw [← Int.sub_emod_right (i + e) n]
+    exact Int.emod_eq_of_lt (by omega) (by omega)
+
+/-- the shifted interval when the rotation point is not strictly inside it -/
+theorem shiftInterval_nowrap (eff n : Int) (iv : Interval) (he0 : 0 ≤ eff) (he : eff < n)
+    (hwf : 0 ≤ iv.start ∧ iv.start < iv.stop ∧ iv.stop ≤ n) (hnw : ¬ wraps eff iv) :
+    shiftInterval eff n iv =
+      { iv with start := if eff ≤ iv.start then iv.start - eff else iv.start - eff + n,
+                stop := if eff ≤ iv.start then iv.stop - eff else iv.stop - eff + n } := by
+  unfold wraps at hnw
+  unfold shiftInterval
+  rw [sub_emod_range iv.start eff n (by omega) (by omega) he0 he,
+    sub_emod_range (iv.stop - 1) eff n (by omega) (by omega) he0 he]
+  by_cases h : eff ≤ iv.start
+  · have h2 : eff ≤ iv.stop - 1 := by omega
+    simp only [h, h2, if_true]
+    have : ¬ (iv.start - eff > iv.stop - 1 - eff + 1) := by omega
+    simp only [this, if_false]
+    congr 1; omega
+  · have h2 : ¬ eff ≤ iv.stop - 1 := by omega
+    simp only [h, h2, if_false]
+    have : ¬ (iv.start - eff + n > iv.stop - 1 - eff + n + 1) := by omega
+    simp only [this, if_false]
+    congr 1; omega
+
+theorem shiftInterval_zero (n : Int) (iv : Interval) (hn : 0 < n)
+    (hwf : 0 ≤ iv.start ∧ iv.start < iv.stop ∧ iv.stop ≤ n) : shiftInterval 0 n iv = iv := by
+  rw [shiftInterval_nowrap 0 n iv (by omega) hn hwf (by unfold wraps; omega)]
+  have : (0 : Int) ≤ iv.start := hwf.1
+  simp only [this, if_true, Int.sub_zero]
+
+theorem shiftInterval_inverse (eff eff' n : Int) (iv : Interval) (he0 : 0 ≤ eff) (he : eff < n)
+    (he' : eff' = if eff = 0 then 0 else n - eff)
+    (hwf : 0 ≤ iv.start ∧ iv.start < iv.stop ∧ iv.stop ≤ n) (hnw : ¬ wraps eff iv) :
+    shiftInterval eff' n (shiftInterval eff n iv) = iv := by
+  rw [shiftInterval_nowrap eff n iv he0 he hwf hnw]
+  unfold wraps at hnw
+  by_cases h0 : eff = 0
+  · subst h0
+    simp only [if_true] at he'
+    subst he'
+    have : (0 : Int) ≤ iv.start := hwf.1
+    simp only [this, if_true, Int.sub_zero]
+    exact shiftInterval_zero n iv (by omega) hwf
+  · simp only [h0, if_false] at he'
+    subst he'
+    by_cases h : eff ≤ iv.start
+    · simp only [h, if_true]
+      rw [shiftInterval_nowrap (n - eff) n _ (by omega) (by omega) (by simp only []; omega)
+        (by unfold wraps; simp only []; omega)]
+      have : ¬ (n - eff ≤ iv.start - eff) := by omega
+      simp only [this, if_false]
+      cases iv; simp only [Interval.mk.injEq, and_true]; constructor <;> omega
+    · simp only [h, if_false]
+      rw [shiftInterval_nowrap (n - eff) n _ (by omega) (by omega) (by simp only []; omega)
+        (by unfold wraps; simp only []; omega)]
+      have : n - eff ≤ iv.start - eff + n := by omega
+      simp only [this, if_true]
+      cases iv; simp only [Interval.mk.injEq, and_true]; constructor <;> omega
+
+/-- position `i` of the rotated sequence is covered by the shifted interval iff its source position `(i + eff) % n` is
+covered by the original one -/
+theorem shiftInterval_cover (eff n : Int) (iv : Interval) (he0 : 0 ≤ eff) (he : eff < n)
+    (hwf : 0 ≤ iv.start ∧ iv.start < iv.stop ∧ iv.stop ≤ n) (hnw : ¬ wraps eff iv) (i : Int) (hi0 : 0 ≤ i) (hi : i < n) :
+    covers (shiftInterval eff n iv) i ↔ covers iv ((i + eff) % n) := by
+  rw [shiftInterval_nowrap eff n iv he0 he hwf hnw, add_emod_range i eff n hi0 hi he0 he]
+  unfold wraps at hnw
+  unfold covers
+  by_cases h : eff ≤ iv.start
+  · simp only [h, if_true]
+    split <;> constructor <;> intro ⟨a, b⟩ <;> constructor <;> omega
+  · simp only [h, if_false]
+    split <;> constructor <;> intro ⟨a, b⟩ <;> constructor <;> omega
+
+
 /-! ### facts about the demo annotations -/
 
 theorem demo_keysOK : KeysOK demo := by
@@ -1020,5 +1102,17 @@ theorem demo_keysOK : KeysOK demo := by
   decide
 
 theorem demoNoIv_keysOK : KeysOK demoNoIv := demo_keysOK
+
+theorem demo_intervalsOK : IntervalsOK demo := by
+  intro L h
+  have : L = [⟨1, 3, false, some [⟨.int 1, 1⟩]⟩, ⟨3, 5, true, none⟩] := by simp [demo] at h; exact h.symm
+  subst this
+  decide
+
+theorem demo_noWrap_3 : NoWrap demo 3 := by
+  intro L h
+  have : L = [⟨1, 3, false, some [⟨.int 1, 1⟩]⟩, ⟨3, 5, true, none⟩] := by simp [demo] at h; exact h.symm
+  subst this
+  decide
 
 end Pept.Reorder
